@@ -28,8 +28,8 @@ class Seed:
     def build(self, objects=None, container_hook=None):
         return self.writer(objects, container_hook).getvalue()
 
-    def writer(self, objects=None, container_hook=None):
-        return build_pdf(objects if objects is not None else self.objects, self.root, info=self.info, form=self.form, pack=self.pack, trailer_extra=self.trailer_extra, flate_containers=self.flate_containers, encrypt=self.encrypt, encrypt_skip=self.encrypt_skip, container_hook=container_hook)
+    def writer(self, objects=None, container_hook=None, encrypt=None):
+        return build_pdf(objects if objects is not None else self.objects, self.root, info=self.info, form=self.form, pack=self.pack, trailer_extra=self.trailer_extra, flate_containers=self.flate_containers, encrypt=encrypt if encrypt is not None else self.encrypt, encrypt_skip=self.encrypt_skip, container_hook=container_hook)
 
     def container_dicts(self):
         """{kind: dictionary} of the streams the writer adds itself ('objstm', 'xref')."""
